@@ -3,6 +3,7 @@ package sweep
 import (
 	"fmt"
 	"math/rand"
+	"strings"
 	"sync"
 
 	"verif/internal/fakeredis"
@@ -116,6 +117,10 @@ func Explore(run *harness.Run, o Options) {
 						run.Inconclusive("%s: resume %s: start point error %v", key, crash, nl.SPErr)
 						return
 					}
+					if strings.HasPrefix(nl.Note, "remaining") {
+						run.Inconclusive("%s: resume %s: %s (start point %+v, send error %v)", key, crash, nl.Note, nl.SP, nl.SendErr)
+						return
+					}
 					run.Eval(1)
 					run.Count("restarts", 1)
 					run.Count("request_prefixes_covered", int64(represented[pi]))
@@ -150,6 +155,9 @@ func Explore(run *harness.Run, o Options) {
 			wg.Wait()
 		}
 		explore(r, base, 0, "")
+		if o.Prop == "C07" || o.Prop == "C02" {
+			ResyncScenario(run, key, r, c, o.Prop)
+		}
 	})
 }
 
